@@ -1,5 +1,89 @@
 import BigtreeModel.Proto
-/-! Driver handler for property C13: one case (token list) in, one canonical line out. -/
+import BigtreeModel.Relation
+/-! Driver handler for property C13 (relation, nested-dict and heap-list constructors).
+
+* `fn=rel dupok=<0|1> [lib=…] (R <xchild> <xparent|-> <attrs>)*`
+* `fn=nested (E | N <ndict>)` with `<ndict> = ( <xname> <attrs> <ndict>* )`
+* `fn=heap xs=<int,int,…|e>`
+
+Answers: `ok <tree>` with `<tree> = ( <xname> <attrs sorted by key> <tree>* )`, for the heap
+`( <xname> <left> <right> )` with `_` for an empty slot; `rej:ValueError`; `rej`. -/
 namespace Drv.C13
-def handle (_toks : List String) : String := "unimplemented"
+open Proto
+
+def showAttrsSorted (a : Attrs) : String :=
+  if a.isEmpty then "-" else
+  let kvs := a.map fun (k, v) => (hex k, showVal v)
+  let kvs := kvs.mergeSort (fun x y => !(y.1 < x.1))
+  ",".intercalate (kvs.map fun (k, v) => k ++ ":" ++ v)
+
+partial def showRes : Tree → String
+  | .node _ n a cs =>
+    "( " ++ hex n ++ " " ++ showAttrsSorted a ++ " " ++ String.join (cs.map fun c => showRes c ++ " ") ++ ")"
+
+def showB : BTree → String
+  | .nil => "_"
+  | .node _ n _ l r => "( " ++ hex n ++ " " ++ showB l ++ " " ++ showB r ++ " )"
+
+def showErr : Err → String
+  | .value => "rej:ValueError"
+  | _ => "rej"
+
+def parseRows : List String → Option (List Rel.Row)
+  | "R" :: c :: p :: a :: rest => do
+    let child ← unhex c
+    let parent ← if p == "-" then some none else (unhex p).map some
+    let attrs ← parseAttrs a
+    let more ← parseRows rest
+    pure ({ child := child, parent := parent, attrs := attrs } :: more)
+  | [] => some []
+  | _ :: rest => parseRows rest
+
+mutual
+partial def parseND : List String → Option (NDict × List String)
+  | "(" :: n :: a :: rest => do
+    let name ← unhex n
+    let attrs ← parseAttrs a
+    let (cs, rest') ← parseNDs rest
+    pure (.mk name attrs cs, rest')
+  | _ => none
+partial def parseNDs : List String → Option (List NDict × List String)
+  | ")" :: rest => some ([], rest)
+  | toks => do
+    let (t, rest) ← parseND toks
+    let (ts, rest') ← parseNDs rest
+    pure (t :: ts, rest')
+end
+
+def parseInts (s : String) : Option (List Int) :=
+  if s == "e" then some [] else (s.splitOn ",").mapM String.toInt?
+
+def handle (toks : List String) : String :=
+  let r : Option String := do
+    let fn ← kv toks "fn"
+    match fn with
+    | "rel" =>
+      let dupok ← match ← kv toks "dupok" with
+        | "1" => some true
+        | "0" => some false
+        | _ => none
+      let rows ← parseRows toks
+      pure (match Rel.relToTree dupok rows with
+        | .ok t => "ok " ++ showRes t
+        | .error e => showErr e)
+    | "nested" =>
+      if toks.contains "E" then pure "rej:ValueError"
+      else
+        let (d, _) ← parseND ((toks.dropWhile (· ≠ "N")).drop 1)
+        pure (match d.toTree with
+          | .ok t => "ok " ++ showRes t
+          | .error e => showErr e)
+    | "heap" =>
+      let xs ← parseInts (← kv toks "xs")
+      pure (match Heap.listToBinary xs with
+        | .ok b => "ok " ++ showB b
+        | .error e => showErr e)
+    | _ => none
+  r.getD "bad-op"
+
 end Drv.C13
